@@ -2054,7 +2054,10 @@ impl<'a, 'options> ModuleGraphErrorIterator<'a, 'options> {
           ))
         } else if matches!(referrer_scheme, "https" | "http")
           && matches!(specifier_scheme, "file")
-          && specifier_text.to_lowercase().starts_with("file://")
+          // the text itself is an absolute file: url ("file:/a", "file:a",
+          // " file:///a", ... all are), as opposed to something a resolver
+          // mapped to one
+          && Url::parse(specifier_text).is_ok_and(|u| u.scheme() == "file")
         {
           Some(ModuleGraphError::for_resolution_kind(
             kind,
@@ -2155,7 +2158,11 @@ impl Iterator for ModuleGraphErrorIterator<'_, '_> {
                   && let Some(err) = self.check_resolution(
                     module,
                     ResolutionKind::Types,
-                    specifier_text,
+                    // the text that was resolved for the type target
+                    dep
+                      .maybe_deno_types_specifier
+                      .as_deref()
+                      .unwrap_or(specifier_text),
                     &dep.maybe_type,
                     dep.is_dynamic,
                   )
